@@ -482,6 +482,12 @@ func (fr *frame) contractMods(m *loopMods, c *FuncContract, pkg *packagesPackage
 			env.vars[n] = freshValue(sig.Params().At(i-shift).Type(), "scan")
 		}
 	}
+	// (the contract of a function literal may name the receiver and the parameters of its enclosing function)
+	for k, v := range fr.fc.paramVals {
+		if _, ok := env.vars[k]; !ok {
+			env.vars[k] = v
+		}
+	}
 	for _, cl := range c.Clauses {
 		if cl.Kind != "modifies" {
 			continue
